@@ -76,6 +76,9 @@ def _val(c, ty):
     if "bytes_hex" in c:
         return T("const", "bytes", c["bytes_hex"])
     if "fn" in c:
+        ct = c["fn"].get("ctor")
+        if ct:
+            return T("const", "fn", callee_id(c["fn"]), ("ctor", ct["adt"], ct["variant"]))
         return T("const", "fn", callee_id(c["fn"]))
     if "bool" in c:
         return T("const", "int", 1 if c["bool"] else 0, "bool")
@@ -432,6 +435,20 @@ class Eval:
                     else:
                         self.loop_step[key] = v
 
+    def _indirect_value(self, fv, args, where, default):
+        while fv.op == "cast" or fv.op in ("ref", "deref"):
+            fv = fv.a[1] if fv.op == "cast" else fv.a[0]
+        if fv.op == "phi":
+            alts = [self._indirect_value(x, args, where, None) for x in fv.a[0]]
+            if all(a is not None for a in alts):
+                return mk_phi(alts)
+            return default
+        if fv.op == "const" and fv.a[0] == "fn":
+            if len(fv.a) > 2 and fv.a[2] and fv.a[2][0] == "ctor":
+                return T("agg", ("adt", fv.a[2][1], fv.a[2][2], tuple(str(i) for i in range(len(args)))), tuple(args))
+            return T("call", fv.a[1], tuple(args), where)
+        return default
+
     def _apply_assumption(self, b, t):
         """Mark switch edges that contradict self.assume as dead."""
         d = self.switch.get(b)
@@ -515,6 +532,10 @@ class Eval:
                 if ra.op == "agg" and ra.a[0][0] == "closure":
                     pass
             self.sites[b] = site
+            if not c and "callee_indirect" in t:
+                # call through a function value: constructors and known functions are resolved
+                val = self._indirect_value(self.value_of(ind, st), args, where, val)
+                site.value = val
             if k == "call":
                 self.write_place(t["dest"], val, st)
         elif k == "switch":
@@ -552,6 +573,12 @@ def place_root(t):
             path.append("." + str(t.a[1]))
             t = t.a[0]
         elif t.op == "call" and t.a[0][0] in ("Clone::clone", "Deref::deref", "AsRef::as_ref", "Borrow::borrow") and len(t.a[1]) == 1:
+            t = t.a[1][0]
+        elif t.op == "index" and t.a[1].op == "const" and t.a[1].a[0] == "int":
+            path.append("[%d]" % t.a[1].a[1])
+            t = t.a[0]
+        elif t.op == "call" and t.a[0][0] == "Index::index" and len(t.a[1]) == 2 and t.a[1][1].op == "const" and t.a[1][1].a[0] == "int":
+            path.append("[%d]" % t.a[1][1].a[1])
             t = t.a[1][0]
         elif t.op == "param":
             return (t.a[1], "".join(reversed(path)))
